@@ -43,6 +43,10 @@ CHECKS = {
          "Byte comparison between child-process runs of the freshly built binary and in-process library calls with the same options over a random flag matrix (list and diff), -f file vs stdout, exit status vs returned error, and ConnlistFromResourceInfos vs ConnlistFromDirPath connections. Held on the K invocations in the evidence.",
          "Relies on run-to-run determinism (C08); logs go to stderr and are not compared.",
          "runtime monitoring: differential oracle between binary and library executions", "DESIGN.md §5 C18"),
+ 'C19': ('fault_enumeration',
+         "Fault enumeration: 7 conflict kinds x 13 sizes of the surrounding admin-policy set (both sides of the sort algorithm switch at 12) x 5 positions x {list, diff dir1, diff dir2}; every cell is run with the conflict (must be rejected with a fatal, identifying error and no report) and as a conflict-free twin (must analyse cleanly). The quick tier runs every cell once, the thorough tier 12 fillers per cell.",
+         "'Naming the conflict' = message contains a conflicting resource name, the offending priority, or baseline/default for BANP kinds.",
+         "runtime monitoring: fault enumeration (conflicting resources) with twin control runs", "DESIGN.md §5 C19"),
 }
 
 NOT_YET = "check not built yet (construction in progress, see DESIGN.md section 9)"
